@@ -362,6 +362,11 @@ func mkMsg(kind string, claim, other int, data []byte, seqno uint64) *signaling.
 	case "other-context":
 		sm, _ := peer.NewSignedMsg("bifrost/pubsub other context", gen.Key(claim), hash.HashType_HashType_BLAKE3, data)
 		m.SignedMsg = sm
+	case "other-context-verified":
+		// genuinely signed by `claim` for another protocol, and already verified there by this very process
+		sm, _ := peer.NewSignedMsg("bifrost/pubsub other context", gen.Key(claim), hash.HashType_HashType_BLAKE3, data)
+		_, _, _ = sm.ExtractAndVerify("bifrost/pubsub other context")
+		m.SignedMsg = sm
 	case "empty-body":
 		m.SignedMsg.Data = nil
 	}
